@@ -285,6 +285,9 @@ def cells_on_one_trainer(chk, tab, mm, *, variant, rng, T, guards):
     # spikes), so the trainer's monitor pool may alias their event monitors - which it must do only where they are
     # interchangeable (e.g. not between a delayed and an undelayed kernel cell)
     shared = (not guards) and rng.random() < 0.4
+    # a third of those: ONE connection into SEVERAL neuron groups (the presynaptic event monitors are the pooling
+    # candidates; the one updater must hold the SUM of the cells' documented changes)
+    skind = "conn" if (shared and rng.random() < 0.34) else True
     dt0 = None
     for j in range(n):
         splus, sminus = rng.choice(SIGNS)
@@ -301,7 +304,9 @@ def cells_on_one_trainer(chk, tab, mm, *, variant, rng, T, guards):
         hdrs.append({"rule": variant, "hp": hp, "conn": {"kind": "dense", "M": 1, "N": 1}, "dt": dt, "B": 1,
                      "reduction": rng.choice(["sum", "mean"]), "dmax": None if nodelay else 2, "delay": 0})
         if shared:
-            hdrs[-1]["shared"] = True
+            hdrs[-1]["shared"] = skind
+            if skind == "conn":
+                hdrs[-1]["dmax"] = hdrs[0]["dmax"]
 
     def delay_of(j, t):
         if hdrs[j]["dmax"] is None:
